@@ -166,7 +166,7 @@ func (t *c02Typedef) render(ind string) string {
 		fmt.Fprintf(&b, "%s  default \"%s\";\n", ind, *t.Default)
 	}
 	if t.Units != "" {
-		fmt.Fprintf(&b, "%s  units %s;\n", ind, t.Units)
+		fmt.Fprintf(&b, "%s  units %s;\n", ind, c02Arg(t.Units))
 	}
 	fmt.Fprintf(&b, "%s}\n", ind)
 	return b.String()
@@ -223,6 +223,7 @@ type c02Scenario struct {
 	leafList bool
 	leafType *c02Stmt
 	leafDef  []string // nil = none
+	edgeLeaf bool     // the leaf is string-like: default texts range over c02EdgeTexts
 	leafUnit string
 	nameSeq  int
 	kind     string
@@ -352,6 +353,9 @@ func (s *c02Scenario) chain(depth int, builtin string, per func(level int, st *c
 		}
 		if s.r.Chance(2, 5) {
 			td.Units = s.fresh("u")
+			if s.r.Chance(1, 4) {
+				td.Units = gen.Pick(s.r, c02EdgeUnits)
+			}
 		}
 		s.addTd(places[i], td)
 		from := plLocal
@@ -439,7 +443,43 @@ func (s *c02Scenario) genString() {
 				st.Patterns = append(st.Patterns, c02Pat{gen.Pick(s.r, pats), s.r.Chance(1, 4)})
 			}
 		}
-	}, func() string { return "abcd" })
+	}, func() string { return s.edgeText() })
+	s.edgeLeaf = true
+}
+
+// c02EdgeTexts: texts a default or units statement of a string-like type may state. The empty string
+// is a stated value: "states the empty string" and "states nothing" are different statements.
+var c02EdgeTexts = []string{"", "", "", " ", "a b", "0", "abcd", "x;y", "a{b}", "none", "  ", "-"}
+
+// units texts: a quoted argument with blanks or punctuation is one units value like any other
+var c02EdgeUnits = []string{"m s", " ", "%", "a;b", "k", "1/s", "a{b}"}
+
+// an argument written bare when it is a plain word, in double quotes otherwise
+func c02Arg(a string) string {
+	for _, c := range a {
+		if !(c >= 'a' && c <= 'z' || c >= '0' && c <= '9') {
+			return "\"" + a + "\""
+		}
+	}
+	return a
+}
+
+func c02Count(k string) {
+	if c02Hist != nil {
+		c02Hist(k)
+	}
+}
+
+func (s *c02Scenario) edgeText() string {
+	d := gen.Pick(s.r, c02EdgeTexts)
+	if c02Hist != nil {
+		if d == "" {
+			c02Hist("default text: a typedef states the empty string")
+		} else {
+			c02Hist("default text: a typedef states a non-empty text")
+		}
+	}
+	return d
 }
 
 func (s *c02Scenario) genValued(prefix string, allowNeg bool) []c02Valued {
@@ -1014,7 +1054,7 @@ func (s *c02Scenario) renderLeaf(ind string) string {
 		fmt.Fprintf(&b, "%s  default \"%s\";\n", ind, d)
 	}
 	if s.leafUnit != "" {
-		fmt.Fprintf(&b, "%s  units %s;\n", ind, s.leafUnit)
+		fmt.Fprintf(&b, "%s  units %s;\n", ind, c02Arg(s.leafUnit))
 	}
 	fmt.Fprintf(&b, "%s}\n", ind)
 	return b.String()
@@ -1045,7 +1085,7 @@ func (s *c02Scenario) renderTwin(ind string) string {
 		fmt.Fprintf(&b, "%s    default \"%s\";\n", ind, d)
 	}
 	if t.leafUnit != "" {
-		fmt.Fprintf(&b, "%s    units %s;\n", ind, t.leafUnit)
+		fmt.Fprintf(&b, "%s    units %s;\n", ind, c02Arg(t.leafUnit))
 	}
 	fmt.Fprintf(&b, "%s  }\n%s}\n", ind, ind)
 	return b.String()
@@ -1562,9 +1602,21 @@ func c02Gen(r *gen.Rng, forceKind string) *c02Scenario {
 		} else {
 			s.leafDef = []string{"11"}
 		}
+		if s.edgeLeaf {
+			// string-like leaf: the leaf's own statement(s) range over the edge texts too
+			for i := range s.leafDef {
+				s.leafDef[i] = gen.Pick(r, c02EdgeTexts)
+			}
+			if s.leafDef[0] == "" {
+				c02Count("default text: the leaf states the empty string")
+			}
+		}
 	}
 	if r.Chance(1, 3) {
 		s.leafUnit = "leafunit"
+		if r.Chance(1, 3) {
+			s.leafUnit = gen.Pick(r, c02EdgeUnits)
+		}
 	}
 	if s.twin != nil {
 		s.genTwin()
